@@ -63,7 +63,7 @@ type Engine struct {
 	overlayJSON string
 	modPath string
 	errorStringType types.Type
-	ioEOF, ioUnexpectedEOF, bufioErrInvalidUnreadByte *ssa.Global
+	ioEOF, ioUnexpectedEOF, bufioErrInvalidUnreadByte, bufioErrBufferFull *ssa.Global
 }
 
 // Violation is a failed assertion (or panic, deadlock, race) with a model.
